@@ -56,6 +56,7 @@ def c12(ctx):
                ["P_C12"], ["I_Sync"], workers=8, tag="MC_Sender_to%s" % to)
     mc_poll(ctx, timeouts=(0, 2))          # I_C12enc: encode, wait, poll from every reachable state
     if not ctx.quick:
+        run_apalache(ctx, "Ind_Poll", theorem="RtInv")     # encode-wait-poll for ALL messages, orders, timeouts
         # growth: end-to-end composition senders -> wire (+ real-time messages anywhere) -> three scanners,
         # safety (reported = sent) and liveness (every message sent is eventually reported) under fairness
         run_mc(ctx, "MC_MidiSystem", {"Chans": "{0, 1}", "V7": "{0, 127}", "V14": "{1, 16383}", "Cns14": "{1}",
